@@ -1,10 +1,122 @@
-/- line-protocol handlers for the C17 Colr models (stub; see Props/C17Colr.lean) -/
-import FontVerif.Model.Base
+/- line-protocol handlers for the C17 COLR / CPAL subsetting models
+(Model/SubsetCpal.lean, Model/SubsetColr*.lean; see Props/C17Colr.lean)
+
+requests:
+  c17.cpal <hex CPAL table> <old new>… | -
+       response: ok <hex subset table> | dropped | fail | trap
+  c17.cpal.read <hex CPAL table> <nPalettes> <nEntries>
+       response: the colours the reader model sees, `p:e=bbggrraa` joined by spaces (`-` = none readable),
+       followed by ` T<types>` ` L<labels>` ` E<entry labels>` (`x` = unreadable)
+  c17.palmap <index>… | -
+       response: old new … (remap_palette_indices)
+  c17.colr <hex COLR table> G <glyphset_colred…> M <glyph_map old new…> P <colr_palettes old new…>
+       L <colrv1_layers old new…> V <colr_varidx_delta_map old new…> I <n> {<len> <key>…}… D <new ds idx, new var idx…>
+       (every list `-` when empty)
+       response: ok <hex subset table> | dropped | fail | trap
+  c17.colrplan <hex COLR table> L <layer indices…> K <collected variation indices…>
+       response: L <old new…> V <old new…> I <n> {<len> <key>…}… D <new ds idx, new var idx…>
+       (remap_indices + the variation part of Plan::colr_closure)
+-/
+import FontVerif.Model.SubsetCpal
+import FontVerif.Model.SubsetColr
 namespace FontVerif.Drv.C17Colr
-open FontVerif
+open FontVerif FontVerif.ColrSer
+open FontVerif.SubsetHvar (Err R)
+
+def natList (ts : List String) : Option (List Nat) :=
+  if ts = ["-"] then some [] else parseNats? ts
+
+def pairs : List Nat → Option (List (Nat × Nat))
+  | [] => some []
+  | [_] => none
+  | a :: b :: rest => (pairs rest).map ((a, b) :: ·)
+
+def showR (r : R (List Nat)) : String :=
+  match r with
+  | .ok b => "ok " ++ toHex b
+  | .error .dropped => "dropped"
+  | .error .fail => "fail"
+  | .error .trap => "trap"
+
+def splitAt (marker : String) (args : List String) : Option (List String × List String) :=
+  let pre := args.takeWhile (· ≠ marker)
+  match args.dropWhile (· ≠ marker) with
+  | [] => none
+  | _ :: rest => some (pre, rest)
+
+/-- `<n> {<len> <key>…}…` -/
+def parseInner : Nat → List Nat → Option (List (List Nat))
+  | 0, [] => some []
+  | 0, _ => none
+  | n + 1, len :: rest =>
+    if rest.length < len then none
+    else (parseInner n (rest.drop len)).map (rest.take len :: ·)
+  | _, _ => none
+
+def showPairs (ps : List (Nat × Nat)) : String := joinNats (ps.flatMap fun (a, b) => [a, b])
+
+def showInner (im : List (List Nat)) : String :=
+  " ".intercalate (toString im.length :: im.map fun m => " ".intercalate (toString m.length :: m.map toString))
+
+def parsePlan (rest : List String) : Option SubsetColr.PlanIn := do
+  let (g, rest) ← splitAt "M" rest
+  let (m, rest) ← splitAt "P" rest
+  let (pp, rest) ← splitAt "L" rest
+  let (l, rest) ← splitAt "V" rest
+  let (v, rest) ← splitAt "I" rest
+  let (i, d) ← splitAt "D" rest
+  let colred ← natList g
+  let glyphMap ← natList m >>= pairs
+  let palettes ← natList pp >>= pairs
+  let layers ← natList l >>= pairs
+  let varIdx ← natList v >>= pairs
+  let inner ← match ← natList i with
+    | n :: xs => parseInner n xs
+    | [] => none
+  let newDs ← natList d >>= pairs
+  some { colred, glyphMap, palettes, layers, varIdx, innerMaps := inner, newDs }
+
+def optNat (o : Option Nat) : String :=
+  match o with
+  | some v => toString v
+  | none => "x"
 
 def handle (cmd : String) (args : List String) : Option String :=
-  match cmd with
-  | _ => none
+  match cmd, args with
+  | "c17.cpal", hex :: rest => do
+    let b ← parseHex? hex
+    let ps ← natList rest >>= pairs
+    some (showR (SubsetCpal.subsetCpal b ps))
+  | "c17.cpal.read", [hex, np, ne] => do
+    let b ← parseHex? hex
+    let np ← parseNat? np
+    let ne ← parseNat? ne
+    let cols := (List.range np).flatMap fun p => (List.range ne).filterMap fun e =>
+      (SubsetCpal.color b p e).map fun c => s!"{p}:{e}={toHex c}"
+    let t := " ".intercalate ((List.range np).map fun p => optNat (SubsetCpal.paletteType b p))
+    let l := " ".intercalate ((List.range np).map fun p => optNat (SubsetCpal.paletteLabel b p))
+    let e := " ".intercalate ((List.range ne).map fun e => optNat (SubsetCpal.entryLabel b e))
+    some ((if cols.isEmpty then "-" else " ".intercalate cols) ++ " T " ++ t ++ " L " ++ l ++ " E " ++ e)
+  | "c17.palmap", rest => do
+    let xs ← natList rest
+    some (joinNats ((SubsetCpal.remapPaletteIndices xs).flatMap fun (a, b) => [a, b]))
+  | "c17.colr", hex :: "G" :: rest => do
+    let b ← parseHex? hex
+    let p ← parsePlan rest
+    some (showR (SubsetColr.subsetColr b.toArray p))
+  | "c17.colrplan", hex :: "L" :: rest => do
+    let b := (← parseHex? hex).toArray
+    let (l, k) ← splitAt "K" rest
+    let layers ← natList l
+    let collected ← natList k
+    let (storeCount, dsim) : Option Nat × SubsetColr.DsimIn :=
+      match SubsetColr.readHeader b with
+      | some { v1 := some (_, _, _, mOff, sOff), .. } =>
+        (if sOff = 0 then none else (SubsetColr.readStore b sOff).map (·.subs.length),
+         if mOff = 0 then SubsetColr.DsimIn.null else SubsetColr.readDsim b mOff)
+      | _ => (none, SubsetColr.DsimIn.null)
+    let (v, im, d) := SubsetColr.varPlan storeCount dsim collected
+    some s!"L {showPairs (SubsetColr.remapIndices layers)} V {showPairs v} I {showInner im} D {showPairs d}"
+  | _, _ => none
 
 end FontVerif.Drv.C17Colr
